@@ -643,6 +643,51 @@ example : normalizePath false [47,120,47,103,111] [47,120,47,103,111,45,119]
 
 end NormalizePath
 
+/-! ### the FileSet is part of the filter state
+
+  compiler.WritePkgCode installs each package's own FileSet (`w.FileSet = pkg.FileSet`) before writing that package's code,
+  and position numbers start again at 1 in every FileSet. `writeSeq` is one filter fed with a sequence of segments
+  (FileSet, Write calls). -/
+
+/-- what must be reported for a sequence of segments written after output `pre` -/
+def specSeq (decode : Bytes → Nat) (pre : Bytes) : List (FileSetSpec × List (List Item)) → List RMapping
+  | [] => []
+  | (fs, chs) :: tl =>
+    (mappings pre chs.flatten).map (fun m => (⟨m.1, m.2.1, resolve fs (decode m.2.2)⟩ : RMapping)) ++
+      specSeq decode (pre ++ codeBytes chs.flatten) tl
+
+def codeSeq : List (FileSetSpec × List (List Item)) → Bytes
+  | [] => []
+  | (_, chs) :: tl => codeBytes chs.flatten ++ codeSeq tl
+
+/-- `mapping_uses_current_fileset`: for every sequence of (FileSet, admissible chunking of a stream) segments, every hint
+    is reported at its exact output position AND resolved in the FileSet that is installed when the hint is written —
+    never in the FileSet (or a file) of an earlier segment; the output is the code of all segments. -/
+theorem mapping_uses_current_fileset (decode : Bytes → Nat) (pre : Bytes)
+    (segs : List (FileSetSpec × List (List Item))) (wf : ∀ s ∈ segs, ∀ ch ∈ s.2, WFs ch) :
+    (writeSeq decode (stOf pre) (segs.map fun s => (s.1, s.2.map render))).2 = specSeq decode pre segs ∧
+    (writeSeq decode (stOf pre) (segs.map fun s => (s.1, s.2.map render))).1 = codeSeq segs := by
+  induction segs generalizing pre with
+  | nil => exact ⟨rfl, rfl⟩
+  | cons s tl ih =>
+    obtain ⟨fs, chs⟩ := s
+    have wfh : ∀ ch ∈ chs, WFs ch := wf (fs, chs) (by simp)
+    have wft : ∀ s ∈ tl, ∀ ch ∈ s.2, WFs ch := fun x hx => wf x (by simp [hx])
+    obtain ⟨pm, pst⟩ := positions_exact pre chs wfh
+    have hout := (hints_removed chs wfh (stOf pre)).1
+    obtain ⟨i1, i2⟩ := ih (pre ++ codeBytes chs.flatten) wft
+    simp only [List.map_cons, writeSeq, specSeq, codeSeq, pm, pst, hout, i1, i2, List.map_map]
+    simp [toMapping, Function.comp_def]
+
+/-- the stale-cache variant is NOT equivalent: with `runtime.go` (50 bytes) cached from the first segment, position 5 of the
+    next package's FileSet (file `dep.go`) is attributed to `runtime.go` -/
+theorem stale_cache_counterexample :
+    ¬ ∀ segs : List (FileSetSpec × List Nat), resolveSeqStale none segs = resolveSeq segs := by
+  intro h
+  have := h [([⟨"runtime.go", 50, 10⟩], [5]), ([⟨"dep.go", 20, 10⟩], [5])]
+  revert this
+  decide
+
 /-! ### repaired defects (theorems about the code as it was before the round-2 repairs) -/
 
 /-- `defaultJSMappingCallback` before the repair C19-js-first-line-column: the test was `GeneratedLine == 0` -/
